@@ -1,4 +1,5 @@
 import PicoVerif.Model.Require
+import PicoVerif.Lemmas.C14
 /-! C14 — build embeds each require()d package once and leaves all code intact.
 The extraction of `require(...)` calls from a file's tree, the file lookup and the re-lexing of a stripped package are
 parameters of the model, tied to the code by the correspondence (real builds of random package graphs, compared token
@@ -13,58 +14,82 @@ registered at most once, and packages already registered keep their place and co
 theorem once (w : World) (fuel : Nat) (calls : List Call) (cur : Nat) (pkgs pkgs' : List Pkg)
     (h : evalCalls w fuel calls cur pkgs = .ok pkgs') (hn : (names pkgs).Nodup) :
     (names pkgs').Nodup ∧ pkgs <+: pkgs' := by
-  sorry
+  exact ⟨evalCalls_nodup w fuel calls cur pkgs pkgs' h hn, evalCalls_prefix w fuel calls cur pkgs pkgs' h⟩
 
 /-- **C14.all_registered**: after a successful evaluation every required name is in the package table. -/
 theorem all_registered (w : World) (fuel : Nat) (calls : List Call) (cur : Nat) (pkgs pkgs' : List Pkg)
     (h : evalCalls w fuel calls cur pkgs = .ok pkgs') :
     ∀ p ugl, (.ok (p, ugl) : Call) ∈ calls → p ∈ names pkgs' := by
-  sorry
+  exact evalCalls_all_registered w fuel calls cur pkgs pkgs' h
 
 /-- **C14.registered_from_lookup**: every package added was found by the lookup for the file that required it and
 its own require() calls were evaluated with the game-loop choice of the first require that named it. -/
 theorem registered_from_lookup (w : World) (fuel : Nat) (calls : List Call) (cur : Nat) (pkgs pkgs' : List Pkg)
     (h : evalCalls w fuel calls cur pkgs = .ok pkgs') :
     ∀ q ∈ pkgs', q ∈ pkgs ∨ ∃ from_, w.locate q.name from_ = some q.file := by
-  sorry
+  exact evalCalls_from_lookup w fuel calls cur pkgs pkgs' h
 
 /-- **C14.arg_error_fails**: a require() with unusable arguments fails the build once it is reached. -/
 theorem arg_error_fails (w : World) (fuel : Nat) (pre post : List Call) (e : Err) (cur : Nat) (pkgs mid : List Pkg)
     (hpre : evalCalls w fuel pre cur pkgs = .ok mid) (hf : fuel ≠ 0) :
     ∃ e', evalCalls w fuel (pre ++ (.error e : Call) :: post) cur pkgs = .error e' := by
-  sorry
+  exact evalCalls_arg_error w post e cur mid pre fuel pkgs hpre
 
 /-- **C14.missing_file_fails**: a require() of a new name whose file cannot be found fails the build. -/
 theorem missing_file_fails (w : World) (fuel : Nat) (p : Bytes) (ugl : Bool) (rest : List Call) (cur : Nat) (pkgs : List Pkg)
     (hnew : p ∉ names pkgs) (hloc : w.locate p cur = none) :
     ∃ e, evalCalls w fuel ((.ok (p, ugl) : Call) :: rest) cur pkgs = .error e := by
-  sorry
+  exact evalCalls_missing_file w fuel p ugl rest cur pkgs hnew hloc
 
 /-- **C14.fuel_irrelevant**: the result does not depend on the fuel once it suffices (the real recursion terminates
 because a package is registered before its own require() calls are evaluated). -/
 theorem fuel_irrelevant (w : World) (fuel : Nat) (calls : List Call) (cur : Nat) (pkgs pkgs' : List Pkg)
     (h : evalCalls w fuel calls cur pkgs = .ok pkgs') (k : Nat) :
     evalCalls w (fuel + k) calls cur pkgs = .ok pkgs' := by
-  sorry
+  exact evalCalls_fuel_mono w k fuel calls cur pkgs pkgs' h
 
 /-- **C14.main_unchanged**: the built code ends with the main program's code, unchanged; without packages it *is* it. -/
 theorem main_unchanged (pkgs : List (Bytes × Bytes)) (main : Bytes) :
     (∃ pre, assembleCode pkgs main = pre ++ main) ∧ (pkgs = [] → assembleCode pkgs main = main) := by
-  sorry
+  constructor
+  · unfold assembleCode
+    split
+    · exact ⟨[], rfl⟩
+    · exact ⟨_, rfl⟩
+  · intro h
+    subst h
+    rfl
 
 /-- **C14.assembly**: with packages the built code is the package-table preamble, one block per package in
 registration order, the loader, then the main code. -/
 theorem assembly (pkgs : List (Bytes × Bytes)) (main : Bytes) (h : pkgs ≠ []) :
     assembleCode pkgs main =
       Gen.requirePreamblePackage.flatten ++ pkgs.flatMap (fun p => pkgBlock p.1 p.2) ++ Gen.requirePreambleRequire.flatten ++ main := by
-  sorry
+  unfold assembleCode
+  rw [if_neg]
+  cases pkgs with
+  | nil => exact absurd rfl h
+  | cons a t => simp
 
 /-- **C14.block_separated**: a package's code sits between its header line and a closing `end` line, and is always
 separated from that `end` by a line feed (a package without a final newline cannot fuse with it). -/
 theorem block_separated (name body : Bytes) :
     ∃ b', pkgBlock name body = "package._c[\"".toUTF8.toList ++ quote name ++ "\"]=function()\n".toUTF8.toList ++ b' ++ "end\n".toUTF8.toList ∧
       (b' = [] ∨ b'.getLast? = some 10) ∧ (body <+: b') := by
-  sorry
+  unfold pkgBlock
+  refine ⟨_, rfl, ?_, ?_⟩
+  · split
+    · rename_i hc
+      rcases hc with hc | hc
+      · left
+        exact List.isEmpty_iff.1 hc
+      · right
+        exact hc
+    · right
+      simp
+  · split
+    · exact List.prefix_refl _
+    · exact List.prefix_append _ _
 
 /-- **C14.strip_keeps_the_rest**: removing the token ranges of the stripped statements keeps every other token, once,
 in order. -/
@@ -72,7 +97,7 @@ theorem strip_keeps_the_rest {α : Type} (toks : List α) (s e : Nat) (rest : Li
     (h1 : pos ≤ s) (h2 : s ≤ e) :
     dropRanges toks ((s, e) :: rest) pos = (toks.take s).drop pos ++ dropRanges toks rest e ∧
     dropRanges toks [] pos = toks.drop pos := by
-  sorry
+  exact ⟨rfl, rfl⟩
 
 example : (match evalCalls { locate := fun p _ => if p == [97] then some 1 else if p == [98] then some 2 else none,
                              callsOf := fun f _ => if f == 0 then [.ok ([97], false), .ok ([98], false), .ok ([97], true)]
